@@ -411,21 +411,47 @@ def run_impl(prop, cases, jobs=None, per_case_timeout=5):
             for c in ch:
                 f.write(json.dumps(c) + "\n")
         outp = tmp / ("out%d.jsonl" % k)
+        errf = open(tmp / ("err%d.txt" % k), "w")          # a file, not a pipe: nobody has to drain it while the worker runs
         pr = subprocess.Popen([PY, "-m", "harness.worker", prop, str(inp), str(outp), str(per_case_timeout)],
-                              cwd=VERIF, env=impl_env(), stdout=subprocess.DEVNULL, stderr=subprocess.PIPE, text=True)
+                              cwd=VERIF, env=impl_env(), stdout=subprocess.DEVNULL, stderr=errf, text=True)
+        errf.close()
         procs.append((pr, outp, len(ch)))
     results = [None] * len(cases)
     # watchdog: a worker gets the time its cases could need if EVERY one of them ran into the per-case limit (the worker's own circuit
     # breaker stops after three), plus start-up; a worker that hangs outside a case (import, impl_init) is killed and its cases count as died
-    budget = 120 + 4 * per_case_timeout + per * 0.05
-    t_end = time.time() + budget
+    # The watchdog looks at PROGRESS, not at a fixed budget (a loaded machine or heavier cases must not look like a hang): a worker is
+    # killed when its result file has not grown for `stall` seconds - longer than start-up plus any single case can take, since the
+    # worker's own timer ends a case after per_case_timeout - or when an absolute cap far above any honest run is reached.
+    stall = 180 + 6 * per_case_timeout
+    cap = 900 + per * (per_case_timeout + 1.0)
+    t0 = time.time()
+    last = {k: (t0, -1) for k in range(len(procs))}
+    errs = {}
+    alive = set(range(len(procs)))
+    while alive:
+        time.sleep(0.5)
+        now = time.time()
+        for k in sorted(alive):
+            pr, outp, n = procs[k]
+            if pr.poll() is not None:
+                alive.discard(k)
+                continue
+            size = outp.stat().st_size if outp.exists() else 0
+            if size != last[k][1]:
+                last[k] = (now, size)
+            elif now - last[k][0] > stall or now - t0 > cap:
+                pr.kill()
+                try:
+                    pr.wait(timeout=10)
+                except Exception:
+                    pass
+                errs[k] = "\n[killed by the harness watchdog: no result for %.0f s (stall limit %.0f s, total %.0f s)]" % (now - last[k][0], stall, now - t0)
+                alive.discard(k)
     for k, (pr, outp, n) in enumerate(procs):
         try:
-            _, err = pr.communicate(timeout=max(5.0, t_end - time.time()))
-        except subprocess.TimeoutExpired:
-            pr.kill()
-            _, err = pr.communicate()
-            err = (err or "") + "\n[killed by the harness watchdog after %.0f s]" % budget
+            err = open(tmp / ("err%d.txt" % k)).read()[-2000:] + errs.get(k, "")
+        except Exception:
+            err = errs.get(k, "")
         outs = []
         if outp.exists():
             for l in open(outp):
